@@ -186,6 +186,10 @@ func Main(isSQLi func(string) (bool, string), isXSS func(string) bool, globals f
 		return common.EncXSS(isXSS(in)), ""
 	}
 	w.sim = simrt.NewSim(exec)
+	// host pressure levels (heap, goroutines, GC cycles as the library sees them)
+	// are seeded per run everywhere except where results are compared with the
+	// shipped code run natively in a small quiet process
+	w.sim.MemFaults = ses.Mode != "seqall" && ses.Mode != "cover"
 	if ses.Mode != "cover" {
 		// garbage collector seam: off, except where the scheduler forces a collection
 		debug.SetGCPercent(-1)
@@ -273,6 +277,10 @@ func (w *worker) runSession() {
 		w.modeChain()
 	case "hugefirst":
 		w.modeHugeFirst()
+	case "wrap":
+		w.modeWrap()
+	case "overlap":
+		w.modeOverlap()
 	case "coldburst":
 		w.modeColdBurst()
 	case "rand":
@@ -461,6 +469,9 @@ func (w *worker) execRun(spec *simrt.RunSpec, exp [][]string, first bool) *simrt
 		report(&Violation{Kind: "deadlock", Detail: res.Detail, Task: -1, Call: -1})
 		w.stop = true
 		s.Aborted = "deadlock"
+	} else if res.Starved {
+		w.stop = true
+		s.Aborted = "starved"
 	} else if res.NoReturn {
 		report(&Violation{Kind: "noreturn", Detail: res.Detail, Task: -1, Call: -1})
 		w.stop = true
@@ -753,6 +764,7 @@ func (w *worker) modeLongPairs() {
 	if L == 0 {
 		return
 	}
+	_, probes := HistLists(w.c)
 	stride := 1
 	if w.ses.Runs > 1 {
 		stride = w.ses.Runs // quick tier: every Runs-th ordered pair (offset by the seed)
@@ -761,8 +773,20 @@ func (w *worker) modeLongPairs() {
 		api := uint8((k / stride) & 1)
 		q := k >> 1
 		a, b := ls[(q/L)%L], ls[q%L]
-		calls := []simrt.Call{{API: api, Idx: a, Input: w.c.In[a]}, {API: api, Idx: b, Input: w.c.In[b]}}
+		// every probe is asked after each long call: what a long call leaves
+		// behind (a budget flag, a grown buffer, a tripped breaker) shows on
+		// ordinary inputs, not on the next long one
+		calls := []simrt.Call{{API: api, Idx: a, Input: w.c.In[a]}}
 		est := w.c.Steps[api][a] + w.c.Steps[api][b] + 2
+		for rep := 0; rep < 2; rep++ {
+			for _, p := range probes {
+				calls = append(calls, simrt.Call{API: api, Idx: p, Input: w.c.In[p]})
+				est += w.c.Steps[api][p] + 1
+			}
+			if rep == 0 {
+				calls = append(calls, simrt.Call{API: api, Idx: b, Input: w.c.In[b]})
+			}
+		}
 		pol := simrt.Policy{Kind: "seq", PoolMode: "lifo"}
 		if w.ses.SyncHeavy {
 			// the library reaches stubs (pools, goroutines, channels, timers): let its
@@ -1024,6 +1048,135 @@ func (w *worker) modeHugeFirst() {
 		pol := simrt.Policy{Kind: []string{"seq", "walk", "rr"}[r], P: 0.05, Quantum: 3, PoolMode: "lifo", GCP: 0.01}
 		sp := &simrt.RunSpec{Seed: uint64(r + 2), Tasks: [][]simrt.Call{calls, c2}, Policy: pol, Est: 2*est + 64}
 		w.execRun(sp, nil, false)
+	}
+}
+
+// OverlapList: the inputs of the self-overlap sweep: long inputs, probes.
+func OverlapList(c *common.Corpus) []int32 {
+	var out []int32
+	for i, f := range c.Flags {
+		if (f&common.FLong != 0 && f&common.FHuge == 0) || f&common.FProbe != 0 {
+			out = append(out, int32(i))
+		}
+	}
+	return out
+}
+
+// modeOverlap: self-overlap sweep. Two tasks ask the same input X; task 1 is
+// parked right after its d-th synchronisation request (an in-flight counter
+// incremented, a buffer taken, a lock released), task 0 then makes the whole
+// call, then task 1 finishes. d = 1, 2, 3, ... until task 1 finishes before its
+// d-th request. Both are inside the same code paths by construction, which
+// is what load-dependent behaviour (shared arenas split between the callers in
+// flight, shedding, degraded paths) needs. Index k in [From,To) enumerates
+// OverlapList x {SQLi,XSS}.
+func (w *worker) modeOverlap() {
+	list := OverlapList(w.c)
+	for k := w.ses.From; k < w.ses.To && k < 2*len(list) && !w.stop; k++ {
+		x := list[k/2]
+		api := uint8(k & 1)
+		for _, d := range []int{1, 2, 3, 4, 5, 6, 8, 11, 15, 20} {
+			if w.stop {
+				break
+			}
+			c := simrt.Call{API: api, Idx: x, Input: w.c.In[x]}
+			spec := &simrt.RunSpec{Seed: uint64(k)*32 + uint64(d), Tasks: [][]simrt.Call{{c}, {c}}, Policy: simrt.Policy{Kind: "overlap", Depth: d, PoolMode: "lifo"}, Est: 2*w.c.Steps[api][x] + 64}
+			res := w.execRun(spec, nil, false)
+			if res == nil || !res.Parked {
+				break
+			}
+		}
+	}
+}
+
+// WrapPeriods are the distances at which a narrow counter, epoch or
+// generation number (uint8, uint16) comes round again.
+var WrapPeriods = []int{255, 256, 65535, 65536}
+
+// WrapPairs: pairs of family members of equal length that differ in one or
+// two bytes and have different reference results on the API (a word and its
+// near-miss spelling in the same syntactic position): what is remembered about
+// one and wrongly applied to the other flips the answer. At most 3 per family, 240 in all.
+func WrapPairs(c *common.Corpus, api uint8) (a, b []int32) {
+	for _, fam := range Families(c) {
+		got := 0
+		for i := 0; i < len(fam) && got < 3; i++ {
+			x := c.In[fam[i]]
+			if len(x) > 80 {
+				continue
+			}
+			for j := i + 1; j < len(fam) && j < i+14; j++ {
+				y := c.In[fam[j]]
+				if len(y) != len(x) || c.Ref[api][fam[i]] == c.Ref[api][fam[j]] {
+					continue
+				}
+				d := 0
+				for k := 0; k < len(x) && d < 3; k++ {
+					if x[k] != y[k] {
+						d++
+					}
+				}
+				if d >= 1 && d <= 2 {
+					a, b = append(a, fam[i]), append(b, fam[j])
+					got++
+					break
+				}
+			}
+		}
+		if len(a) >= 240 {
+			break
+		}
+	}
+	return
+}
+
+// modeWrap: exact-distance histories, one pair per run: the first member, a
+// cheap filler until call N, the second member - exactly N calls after its
+// partner - filler again and the first member again (the reverse direction).
+// N = WrapPeriods[Runs>>1], API = Runs&1, pairs [From,To). A slot stamped with a
+// narrow epoch, a generation byte, a sequence number compared modulo 2^8 or
+// 2^16 is valid again at exactly this distance and at no other. (One pair per
+// run: members of other pairs share syntactic positions and would overwrite
+// what the first member left behind.)
+func (w *worker) modeWrap() {
+	api := uint8(w.ses.Runs & 1)
+	n := WrapPeriods[(w.ses.Runs>>1)%len(WrapPeriods)]
+	a, b := WrapPairs(w.c, api)
+	// filler: the cheapest non-empty input that is neither positive nor panicking on this API
+	fill := int32(-1)
+	for i, in := range w.c.In {
+		if len(in) == 0 || len(in) > 8 {
+			continue
+		}
+		if ref := w.c.Ref[api][i]; len(ref) == 0 || ref[0] != 'F' {
+			continue
+		}
+		if fill < 0 || w.c.Steps[api][i] < w.c.Steps[api][fill] {
+			fill = int32(i)
+		}
+	}
+	if fill < 0 {
+		return
+	}
+	for k := w.ses.From; k < w.ses.To && k < len(a) && !w.stop; k++ {
+		calls := make([]simrt.Call, 0, 2*n+1)
+		var est int64
+		add := func(i int32) {
+			calls = append(calls, simrt.Call{API: api, Idx: i, Input: w.c.In[i]})
+			est += w.c.Steps[api][i] + 1
+		}
+		for round := 0; round < 3; round++ {
+			if round == 1 {
+				add(b[k])
+			} else {
+				add(a[k])
+			}
+			for f := 1; f < n && round < 2; f++ {
+				add(fill)
+			}
+		}
+		spec := &simrt.RunSpec{Seed: uint64(n)*1024 + uint64(k)*2 + uint64(api), Tasks: [][]simrt.Call{calls}, Policy: simrt.Policy{Kind: "seq", PoolMode: "lifo"}, Est: est + 64}
+		w.execRun(spec, nil, k == w.ses.From)
 	}
 }
 
